@@ -289,6 +289,18 @@ def run_shard(ctx):
                 check_case(ctx, {'lib': spec, 'mapping': [[k, 1]],
                                  'scales': [-1, 2]})
             i += 1
+        # degenerate sizes: the empty mapping, a single zero count, the
+        # whole basis at once
+        if ctx.mine(i):
+            check_case(ctx, {'lib': spec, 'mapping': [], 'scales': [2]})
+            check_case(ctx, {'lib': spec, 'mapping': [[basis[0], 0]],
+                             'scales': [-1]})
+            check_case(ctx, {'lib': spec,
+                             'mapping': [[k, 1 + (j % 3)]
+                                         for j, k in enumerate(basis)],
+                             'scales': [-1, 0.5], 'permute': True})
+            ctx.count('degenerate_mappings', 3)
+        i += 1
         with_data = [str(g) for g in lib if 'thermochem' in lib[g]
                      and str(g) not in basis]
         for j in range(per):
